@@ -95,11 +95,9 @@ Lemma threads_one_to_one d :
   length (threads_of d) = length (d_threads d) /\
   map cs_id (threads_of d) = map t_id (d_threads d) /\
   forall i t cs, nth_error (d_threads d) i = Some t -> nth_error (threads_of d) i = Some cs ->
-    cs_id cs = t_id t /\
-    (dump_tid d = Some (t_id t) ->
-       cs_info cs = CsDumpThreadSkipped /\ cs_name cs = None /\ cs_ctx cs = None) /\
-    (dump_tid d <> Some (t_id t) ->
-       cs_name cs = get_name (d_names d) (t_id t) /\ cs_info cs <> CsDumpThreadSkipped).
+    cs_id cs = t_id t /\ cs_name cs = get_name (d_names d) (t_id t) /\
+    (dump_tid d = Some (t_id t) -> cs_info cs = CsDumpThreadSkipped /\ cs_ctx cs = None) /\
+    (dump_tid d <> Some (t_id t) -> cs_info cs <> CsDumpThreadSkipped).
 Proof.
   rewrite threads_of_map. split; [apply map_length|]. split.
   - rewrite map_map. apply map_ext. intro t. unfold stack_of, one_thread.
@@ -107,9 +105,8 @@ Proof.
   - intros i t cs Ht Hcs. rewrite (map_nth_error (stack_of d) i (d_threads d) Ht) in Hcs.
     inversion Hcs; subst cs; clear Hcs. unfold stack_of, one_thread.
     destruct (oz_eqb (dump_tid d) (t_id t)) eqn:E; cbn [fst cs_id cs_info cs_name cs_ctx].
-    + apply oz_eqb_true in E. split; [reflexivity|]. split; [intros _; auto|]. intro H; contradiction.
-    + apply oz_eqb_false in E. split; [reflexivity|]. split; [intro H; contradiction|]. intros _.
-      split; [reflexivity|].
+    + apply oz_eqb_true in E. split; [reflexivity|]. split; [reflexivity|]. split; [intros _; auto|]. intro H; contradiction.
+    + apply oz_eqb_false in E. split; [reflexivity|]. split; [reflexivity|]. split; [intro H; contradiction|]. intros _.
       destruct (if oz_eqb (target_tid d) (t_id t)
                 then or_ctx (tag_ctx FromException (exc_ctx d)) (tag_ctx FromThread (t_ctx t))
                 else tag_ctx FromThread (t_ctx t)); discriminate.
